@@ -129,6 +129,19 @@ Theorem C20_unk_text_spec : forall cats t,
 Proof. exact unk_text_spec. Qed.
 Print Assumptions C20_unk_text_spec.
 
+(* the lines that yield no record are exactly the blank ones and the comments (and, for the category definitions, the
+   range lines starting with 0x) *)
+Theorem C20_charprop_skipped_lines : forall raw,
+  cp_data_line raw = false <->
+  (trim raw = [] \/ (exists c l, trim raw = c :: l /\ ((c =? UF.charprop_comment)%N || starts_with UF.charprop_range_prefix (c :: l)) = true)).
+Proof. exact cp_data_line_iff. Qed.
+Print Assumptions C20_charprop_skipped_lines.
+
+Theorem C20_unk_skipped_lines : forall cats raw,
+  unk_data_line cats raw = false <-> (trim raw = [] \/ exists l, trim raw = UF.unk_comment :: l).
+Proof. exact unk_data_line_iff. Qed.
+Print Assumptions C20_unk_skipped_lines.
+
 (* the templates of one category are those lines' templates, in file order (oov_list) *)
 Theorem C20_unk_templates_grouped : forall c ts u, In u (templates_of c ts) <-> In u ts /\ u_cat u = c.
 Proof. exact templates_of_in. Qed.
